@@ -3,7 +3,8 @@ run on the Coq machine (coq/Proc) and on the real psutil over a fake /proc + rec
 
 case = {"kind": "hist", "cls": ..., "evs": [event, ...]} with events
   ["spawn", pid, start, ppid] ["exit", pid] ["reap", pid] ["clock", d]
-  ["new", pid] ["isrun", o] ["eq", a, b] ["hasheq", a, b] ["ppid", o] ["ctime", o] ["boot"] ["iter"]
+  ["new", pid] ["popen", pid] (psutil.Popen over a stub subprocess.Popen with that pid) ["os_enter", o] ["os_exit", o]
+  (o.oneshot() block entered / innermost left) ["asdict", o] (o.as_dict(attrs=["ppid"])) ["isrun", o] ["eq", a, b] ["hasheq", a, b] ["ppid", o] ["ctime", o] ["boot"] ["iter"]
   ["set", o, [method, args...]]   method in signal/suspend/resume/terminate/kill/nice/ionice/rlimit/affinity
 Objects are numbered in order of creation (psutil.Process(pid) and objects first yielded by process_iter()).
 """
@@ -46,6 +47,8 @@ class Shadow:
         self.starts = {}    # pid -> set of starts used
         self.nextinc = 0
         self.objs = []      # [pid, start, gone, reused, inc]
+        self.depth = {}     # object -> depth of open oneshot blocks
+        self.cppid = set()  # objects whose ppid() is memoized in the current block
         self.pmap = {}
         self.reused = set()
 
@@ -94,8 +97,25 @@ class Shadow:
             self.table.pop(e[1], None)
         elif k == "new":
             self._new(e[1])
-        elif k in ("isrun", "ppid"):
+        elif k == "popen":
+            if e[1] in self.table:
+                self._new(e[1])
+        elif k == "os_enter":
             if e[1] < len(self.objs):
+                self.depth[e[1]] = self.depth.get(e[1], 0) + 1
+        elif k == "os_exit":
+            if self.depth.get(e[1], 0) > 0:
+                self.depth[e[1]] -= 1
+                if self.depth[e[1]] == 0:
+                    self.cppid.discard(e[1])
+        elif k in ("isrun", "ppid", "asdict"):
+            if e[1] < len(self.objs):
+                if k == "ppid" and self.depth.get(e[1], 0) > 0:
+                    if e[1] in self.cppid:
+                        return
+                    if self._isrun(e[1]):
+                        self.cppid.add(e[1])
+                    return
                 self._isrun(e[1])
         elif k == "set":
             if e[1] < len(self.objs):
@@ -199,6 +219,34 @@ def gen_history(rng, n_events, flavour):
         else:
             emit(["hasheq", o, rng.randrange(len(sh.objs))])
 
+    def oneshot_motif():
+        # guarded calls inside one "with p.oneshot():" block, before and after the process ends and the PID is reused
+        o = some_obj(lambda i: sh.alive(i))
+        if o is None:
+            return
+        pid = sh.objs[o][0]
+        emit(["os_enter", o])
+        if rng.random() < 0.3:
+            emit(["os_enter", o])
+        for _ in range(rng.choice([0, 1, 2])):
+            emit(rng.choice([["ppid", o], ["isrun", o], ["ctime", o], ["set", o, gen_setter(rng)], ["asdict", o]]))
+        feats.add("oneshot")
+        if rng.random() < 0.85:
+            if rng.random() < 0.3:
+                emit(["exit", pid])
+            emit(["reap", pid])
+            if rng.random() < 0.4:
+                emit(rng.choice([["ppid", o], ["isrun", o], ["ctime", o]]))
+            if rng.random() < 0.8:
+                spawn_some(pid)
+        emit(["set", o, gen_setter(rng)])
+        if rng.random() < 0.5:
+            emit(rng.choice([["ppid", o], ["isrun", o], ["set", o, gen_setter(rng)], ["asdict", o]]))
+        while sh.depth.get(o, 0) > 0 and rng.random() < 0.8:
+            emit(["os_exit", o])
+        if rng.random() < 0.5:
+            emit(["set", o, gen_setter(rng)])
+
     # a little population first
     for _ in range(rng.choice([1, 2, 3])):
         spawn_some()
@@ -215,13 +263,19 @@ def gen_history(rng, n_events, flavour):
             emit(["clock", rng.choice([-100000, -3, -1, 1, 3, 3600, 10 ** 9])])
         elif r < 0.37:
             pid = rng.choice(sorted(sh.table)) if sh.table and rng.random() < 0.85 else rng.choice(PIDS + BAD_PIDS)
-            emit(["new", pid])
+            if rng.random() < 0.3 and pid in sh.table:
+                emit(["popen", pid])
+                feats.add("popen")
+            else:
+                emit(["new", pid])
         elif r < 0.40:
             emit(["boot"])
         elif r < 0.44:
             emit(["iter"])
         elif objs_n == 0:
             continue
+        elif r < 0.50:
+            oneshot_motif()
         elif r < 0.62:
             # motif: end of a process, optional queries, optional reuse, then the call under test
             o = some_obj(lambda i: sh.alive(i)) if rng.random() < 0.8 else some_obj()
@@ -282,7 +336,11 @@ def gen_history(rng, n_events, flavour):
                 emit(["ppid", o])
             else:
                 emit(["ctime", o])
-    order = ["set-reused-after-gone", "set-reused", "pid0", "set-gone", "set-zombie", "eq-same-pid-other-proc", "isrun-reused",
+    if "oneshot" in feats and ("set-reused" in feats or "set-reused-after-gone" in feats):
+        feats.add("oneshot-set-reused")
+    if "popen" in feats and ("set-reused" in feats or "set-reused-after-gone" in feats):
+        feats.add("popen-set-reused")
+    order = ["oneshot-set-reused", "popen-set-reused", "set-reused-after-gone", "set-reused", "pid0", "set-gone", "set-zombie", "eq-same-pid-other-proc", "isrun-reused",
              "clock", "eq-same-proc", "isrun-gone", "iter", "set-alive", "isrun-alive", "eq-other-pid"]
     if flavour == "c02":
         order = ["eq-same-pid-other-proc", "isrun-reused", "clock", "eq-same-proc", "isrun-gone", "set-reused", "iter",
@@ -321,6 +379,14 @@ def _ev_term(e):
         return "EK (ClockStep %s)" % G.z(e[1])
     if k == "new":
         return "EC (New %s)" % G.z(e[1])
+    if k == "popen":
+        return "EC (NewPopen %s)" % G.z(e[1])
+    if k == "os_enter":
+        return "EC (OneshotEnter %s)" % G.nat(e[1])
+    if k == "os_exit":
+        return "EC (OneshotExit %s)" % G.nat(e[1])
+    if k == "asdict":
+        return "EC (AsDict %s)" % G.nat(e[1])
     if k == "isrun":
         return "EC (IsRunning %s)" % G.nat(e[1])
     if k == "eq":
@@ -446,7 +512,7 @@ def impl_run(case, coq, env):
     os.kill, cext_posix.setpriority = f_kill, f_setprio
     cext.proc_ioprio_set, cext.proc_cpu_affinity_set = f_ioprio, f_affinity
     resource.prlimit = f_prlimit
-    objs, first_hash = [], {}
+    objs, first_hash, blocks = [], {}, {}
 
     def write_proc(pid):
         k = table[pid]
@@ -484,6 +550,29 @@ def impl_run(case, coq, env):
 
     def new_obj(pid):
         p = psutil.Process(pid)
+        objs.append(p)
+        return len(objs) - 1
+
+    class StubSubprocessPopen:
+        """Stands for subprocess.Popen: a child with the given pid that nobody polls (returncode stays None)."""
+
+        def __init__(self, pid):
+            self.pid = pid
+            self.returncode = None
+
+        def poll(self):
+            return None
+
+        def wait(self, timeout=None):
+            raise AssertionError("wait() is not part of these histories")
+
+    def new_popen(pid):
+        real = psutil.subprocess.Popen
+        psutil.subprocess.Popen = StubSubprocessPopen
+        try:
+            p = psutil.Popen(pid)
+        finally:
+            psutil.subprocess.Popen = real
         objs.append(p)
         return len(objs) - 1
 
@@ -529,14 +618,27 @@ def impl_run(case, coq, env):
                 state["btime"] += e[1]
                 fp.set_btime(state["btime"])
                 r = Val(None)
+            elif coq["model"][len(out)][0] == T("OutOfModel"):
+                r = T("OutOfModel")      # the model does not cover this call in this state: not issued
             elif k == "new":
                 r = outcome(lambda: new_obj(e[1]), lambda i: T("Obj", i))
+            elif k == "popen":
+                r = outcome(lambda: new_popen(e[1]), lambda i: T("Obj", i))
             elif k == "boot":
                 r = outcome(psutil.boot_time, lambda x: int(x) if float(x).is_integer() else T("Float", repr(x)))
             elif k == "iter":
                 r = outcome(lambda: list(psutil.process_iter()), lambda l: T("Objs", [idx_of(p) for p in l]))
             elif any(o >= len(objs) for o in e[1:(3 if k in ("eq", "hasheq") else 2)]):
                 r = T("OutOfModel")
+            elif k == "os_enter":
+                cm = objs[e[1]].oneshot()
+                r = outcome(cm.__enter__, conv_none)
+                blocks.setdefault(e[1], []).append(cm)
+            elif k == "os_exit":
+                r = outcome(lambda: blocks[e[1]].pop().__exit__(None, None, None), lambda x: None)
+            elif k == "asdict":
+                r = outcome(lambda: objs[e[1]].as_dict(attrs=["ppid"]),
+                            lambda d: d["ppid"] if list(d) == ["ppid"] else T("BadDict", repr(d)))
             elif k == "isrun":
                 r = outcome(objs[e[1]].is_running, lambda b: b if isinstance(b, bool) else T("NotBool", repr(b)))
             elif k == "eq":
@@ -553,6 +655,12 @@ def impl_run(case, coq, env):
                 raise ValueError(k)
             out.append([r, log[mark:]])
     finally:
+        for cms in blocks.values():
+            while cms:
+                try:
+                    cms.pop().__exit__(None, None, None)
+                except Exception:
+                    pass
         for mod, name, fn in saved:
             setattr(mod, name, fn)
     return out
